@@ -29,7 +29,27 @@ type CEnv struct {
 	sig       *types.Signature
 	inOld     bool
 	specMode  bool
+	whereExpr *CE  // callee's where-clause when evaluating its ensures at a call site
+	ghostsOK  bool // the frame's logical variables are in scope (own contract, not a callee's)
+	goal      bool // polarity: true when the formula is to be proved, false when assumed
+	mixed     int  // >0 inside a context of both polarities
 }
+
+// flipped evaluates f with the opposite polarity.
+func (c *CEnv) flipped(f func() *Term) *Term {
+	c.goal = !c.goal
+	defer func() { c.goal = !c.goal }()
+	return f()
+}
+
+func (c *CEnv) bothPolarities(f func() *Term) *Term {
+	c.mixed++
+	defer func() { c.mixed-- }()
+	return f()
+}
+
+func (c *CEnv) asGoal() *CEnv   { c.goal = true; return c }
+func (c *CEnv) asAssume() *CEnv { c.goal = false; return c }
 
 func (c *CEnv) heap() *State {
 	if c.inOld && c.old != nil {
@@ -158,10 +178,13 @@ func (c *CEnv) evalH(e *CE, hint *Value) Value {
 		c.inOld = saved
 		return v
 	case "un":
+		if e.Name == "!" {
+			return Value{K: KScalar, X: Not(c.flipped(func() *Term { return c.evalBool(e.Args[0]) }))}
+		}
 		a := c.evalH(e.Args[0], hint)
 		switch e.Name {
 		case "!":
-			return Value{K: KScalar, X: Not(a.X)}
+			return Value{K: KScalar, X: Not(c.flipped(func() *Term { return c.evalBool(e.Args[0]) }))}
 		case "-":
 			if m == ModeBV {
 				return Value{K: KScalar, T: a.T, X: App("bvneg", a.X.S, a.X)}
@@ -175,7 +198,7 @@ func (c *CEnv) evalH(e *CE, hint *Value) Value {
 			return Value{K: KScalar, T: a.T, X: m.compl(a.X, it)}
 		}
 	case "tern":
-		cond := c.evalBool(e.Args[0])
+		cond := c.bothPolarities(func() *Term { return c.evalBool(e.Args[0]) })
 		a := c.evalH(e.Args[1], hint)
 		b := c.evalH(e.Args[2], &a)
 		if _, isNum := litValue(a.X); a.K == KScalar && isNum && e.Args[1].Kind == "num" {
@@ -236,6 +259,20 @@ func (c *CEnv) ident(e *CE, hint *Value) Value {
 			return v
 		}
 	}
+	if c.fr != nil && c.fr.top != nil && c.ghostsOK {
+		if v, ok := c.fr.top.ghosts[name]; ok {
+			return v
+		}
+	}
+	if name == "where" {
+		if c.whereExpr != nil {
+			// a callee's hypothesis, expanded in the caller's context
+			return Value{K: KScalar, X: c.evalBool(c.whereExpr)}
+		}
+		if c.fr != nil && c.fr.top != nil && c.ghostsOK && c.fr.top.whereSym != nil {
+			return Value{K: KScalar, X: c.fr.top.whereSym}
+		}
+	}
 	// package-level constants
 	if c.pkg != nil {
 		if v, ok := c.pkgConst(c.pkg.Types, name, hint); ok {
@@ -288,9 +325,12 @@ func (c *CEnv) binary(e *CE, hint *Value) Value {
 	case "||":
 		return Value{K: KScalar, X: Or(c.evalBool(e.Args[0]), c.evalBool(e.Args[1]))}
 	case "==>":
-		return Value{K: KScalar, X: Implies(c.evalBool(e.Args[0]), c.evalBool(e.Args[1]))}
+		l := c.flipped(func() *Term { return c.evalBool(e.Args[0]) })
+		return Value{K: KScalar, X: Implies(l, c.evalBool(e.Args[1]))}
 	case "<==>":
-		return Value{K: KScalar, X: Eq(c.evalBool(e.Args[0]), c.evalBool(e.Args[1]))}
+		l := c.bothPolarities(func() *Term { return c.evalBool(e.Args[0]) })
+		r := c.bothPolarities(func() *Term { return c.evalBool(e.Args[1]) })
+		return Value{K: KScalar, X: Eq(l, r)}
 	}
 	var a, b Value
 	isCmp := op == "==" || op == "!=" || op == "<" || op == "<=" || op == ">" || op == ">="
@@ -628,6 +668,14 @@ func (c *CEnv) quant(e *CE) Value {
 	var guards []*Term
 	c.x.vc.nfresh++
 	tag := c.x.vc.nfresh
+	vc := c.x.vc
+	vc.sideStack = append(vc.sideStack, nil)
+	popSide := func() []*Term {
+		n := len(vc.sideStack)
+		s := vc.sideStack[n-1]
+		vc.sideStack = vc.sideStack[:n-1]
+		return s
+	}
 	if e.Typ == "" {
 		lo := c.evalH(e.Args[0], &Value{K: KScalar, X: m.ix(0)}).X
 		hi := c.evalH(e.Args[1], &Value{K: KScalar, X: m.ix(0)}).X
@@ -640,10 +688,7 @@ func (c *CEnv) quant(e *CE) Value {
 			guards = append(guards, m.cmp(token.LEQ, lo, s, ixT), m.cmp(token.LSS, s, hi, ixT))
 		}
 		body := c.evalBool(e.Args[2])
-		if e.Kind == "forall" {
-			return Value{K: KScalar, X: Forall(vars, Implies(And(guards...), body))}
-		}
-		return Value{K: KScalar, X: Exists(vars, And(append(guards, body)...))}
+		return Value{K: KScalar, X: c.closeQuant(e.Kind, vars, guards, popSide(), body)}
 	}
 	for _, v := range e.Vars {
 		name := fmt.Sprintf("%s!q%d", v, tag)
@@ -660,10 +705,30 @@ func (c *CEnv) quant(e *CE) Value {
 		vars = append(vars, [2]string{name, sort})
 	}
 	body := c.evalBool(e.Args[0])
-	if e.Kind == "forall" {
-		return Value{K: KScalar, X: Forall(vars, Implies(And(guards...), body))}
+	return Value{K: KScalar, X: c.closeQuant(e.Kind, vars, guards, popSide(), body)}
+}
+
+// closeQuant builds the quantified formula. side holds heap-typing facts about terms that mention
+// the bound variables; they are always true, so they strengthen whichever side helps the prover:
+// hypotheses of a goal, conclusions of an assumption. In mixed polarity they are dropped.
+func (c *CEnv) closeQuant(kind string, vars [][2]string, guards, side []*Term, body *Term) *Term {
+	if c.mixed > 0 {
+		side = nil
 	}
-	return Value{K: KScalar, X: Exists(vars, And(append(guards, body)...))}
+	if kind == "forall" {
+		g, s, b := And(guards...), And(side...), body
+		nv, parts, pats := c.x.vc.shapeQuant(vars, []*Term{g, s, b})
+		g, s, b = parts[0], parts[1], parts[2]
+		if c.goal {
+			return Forall(nv, Implies(And(g, s), b), pats...)
+		}
+		return Forall(nv, Implies(g, And(s, b)), pats...)
+	}
+	if c.goal {
+		// proving an existential: side facts may not be assumed inside; drop them
+		return Exists(vars, And(append(guards, body)...))
+	}
+	return Exists(vars, And(append(append(guards, side...), body)...))
 }
 
 func (c *CEnv) callExpr(e *CE, hint *Value) Value {
@@ -975,7 +1040,7 @@ func identName(d *ssa.DebugRef) string {
 }
 
 func (x *Exec) loopEnv(fr *Frame, li *LoopInfo, st *State) *CEnv {
-	env := &CEnv{x: x, fr: fr, st: st, old: &fr.top.entry, pkg: fr.pkg, mode: x.m(), vars: map[string]Value{}}
+	env := &CEnv{x: x, fr: fr, st: st, old: &fr.top.entry, pkg: fr.pkg, mode: x.m(), vars: map[string]Value{}, ghostsOK: fr == fr.top}
 	if fr != fr.top {
 		env.old = &fr.entry
 	}
@@ -985,7 +1050,7 @@ func (x *Exec) loopEnv(fr *Frame, li *LoopInfo, st *State) *CEnv {
 }
 
 func (x *Exec) entryEnv(fr *Frame, st *State) *CEnv {
-	env := &CEnv{x: x, fr: fr, st: st, old: &fr.entry, pkg: fr.pkg, mode: x.m(), vars: map[string]Value{}}
+	env := &CEnv{x: x, fr: fr, st: st, old: &fr.entry, pkg: fr.pkg, mode: x.m(), vars: map[string]Value{}, ghostsOK: fr == fr.top}
 	for i, p := range fr.fn.Params {
 		env.vars[p.Name()] = fr.params[i]
 	}
